@@ -1283,6 +1283,13 @@ def _names_bound_in_block(lines: List[str]) -> Set[str]:
     return names
 
 
+def _copy_env(env: Dict[str, object]) -> Dict[str, object]:
+    """Copy a constant environment for a nested scope (tracked lists are copied too,
+    so that mirroring a mutation in one branch cannot leak into a sibling branch)."""
+
+    return {key: (list(value) if isinstance(value, list) else value) for key, value in env.items()}
+
+
 def _forget_constants(ctx: Dict[str, object], names: Set[str]) -> None:
     """Stop treating ``names`` as transpile-time constants in ``ctx``.
 
@@ -1671,6 +1678,12 @@ def _parse_function(
 
     ctx.setdefault("function_sources", {})[name] = (params_src, list(block))
 
+    # A helper may run between any two statements: what it (re)binds or mutates
+    # can never be treated as a transpile-time constant by its callers.
+    helper_bound = _names_bound_in_block(block) - {arg.arg for arg in all_args}
+    ctx.setdefault("_volatile_names", set()).update(helper_bound)
+    _forget_constants(ctx, helper_bound)
+
     helpers_set = ctx.setdefault("helpers", set())
     functions_map: Dict[str, Dict[Tuple[str, ...], str]] = ctx.setdefault(
         "functions", {}
@@ -1689,7 +1702,7 @@ def _parse_function(
     defs.setdefault(name, {})
 
     child_ctx: Dict[str, object] = dict(ctx)
-    child_ctx["vars"] = dict(ctx.get("vars", {}))
+    child_ctx["vars"] = _copy_env(ctx.get("vars", {}))
     child_ctx["var_types"] = dict(ctx.get("var_types", {}))
     child_ctx["var_declared"] = set(ctx.get("var_declared", set()))
     child_ctx["_base_declared"] = set(child_ctx["var_declared"])
@@ -1992,7 +2005,11 @@ def _handle_assignment_ast(
             helpers.add("list")
         var_types[target.id] = inferred_type
         vars_env[target.id] = value_obj
+        if target.id in ctx.get("_volatile_names", ()) and not isinstance(value_obj, _ExprStr):
+            vars_env[target.id] = _ExprStr(target.id)
         record_list_state(target.id, inferred_type, value, value_obj)
+        if target.id in ctx.get("_volatile_names", ()) and target.id in list_info:
+            list_info[target.id]["length"] = None
         needs_clone = is_declared and _is_list_type(inferred_type)
         assign_expr = expr_c
         assign_as_expr_stmt = False
@@ -2073,6 +2090,8 @@ def _handle_assignment_ast(
             for idx, name in enumerate(left_names):
                 declared.add(name)
                 vars_env[name] = evaluated_values[idx]
+                if name in ctx.get("_volatile_names", ()):
+                    vars_env[name] = _ExprStr(name)
                 cpp_type = _cpp_type(inferred_types[idx])
                 expr_c = right_data[idx][1]
                 is_const = right_data[idx][3]
@@ -2114,6 +2133,8 @@ def _handle_assignment_ast(
 
         for idx, name in enumerate(left_names):
             vars_env[name] = evaluated_values[idx]
+            if name in ctx.get("_volatile_names", ()):
+                vars_env[name] = _ExprStr(name)
             if name not in declared:
                 declared.add(name)
                 nodes.append(
@@ -2666,7 +2687,7 @@ def _parse_simple_lines(
             base_declared = set(ctx.get("var_declared", set()))
             def _branch_ctx() -> Dict[str, object]:
                 child = dict(ctx)
-                child["vars"] = dict(base_ctx_vars)
+                child["vars"] = _copy_env(base_ctx_vars)
                 child["var_types"] = dict(base_types)
                 child["var_declared"] = set(base_declared)
                 child["_base_declared"] = set(base_declared)
@@ -2789,7 +2810,7 @@ def _parse_simple_lines(
 
             def _child_ctx() -> Dict[str, object]:
                 child = dict(ctx)
-                child["vars"] = dict(base_ctx_vars)
+                child["vars"] = _copy_env(base_ctx_vars)
                 child["var_types"] = dict(base_types)
                 child["var_declared"] = set(base_declared)
                 child["_base_declared"] = set(base_declared)
@@ -2888,7 +2909,7 @@ def _parse_simple_lines(
             _forget_constants(ctx, _names_bound_in_block(block))
             cond_expr = _to_c_expr(m.group(1), vars, ctx)
             child_ctx: Dict[str, object] = dict(ctx)
-            child_ctx["vars"] = dict(vars)
+            child_ctx["vars"] = _copy_env(vars)
             child_ctx["var_types"] = dict(ctx.get("var_types", {}))
             base_declared = set(ctx.get("var_declared", set()))
             child_ctx["var_declared"] = set(base_declared)
@@ -2969,7 +2990,7 @@ def _parse_simple_lines(
             block, next_idx = _collect_block(snippet, i)
             _forget_constants(ctx, _names_bound_in_block(block))
             child_ctx = dict(ctx)
-            child_ctx["vars"] = dict(vars)
+            child_ctx["vars"] = _copy_env(vars)
             child_ctx["var_types"] = dict(ctx.get("var_types", {}))
             base_declared = set(ctx.get("var_declared", set()))
             base_with_loop_var = set(base_declared)
